@@ -12,6 +12,14 @@ CHECKS = {
          "Doc-value callbacks are compared as sets with the model for ascending/descending/random/fresh/subset/cross-segment visiting, chunk sizes 1..1024, in-memory, re-opened and merged segments.", "§3 C03"),
  "C04": ("exploration", "runtime monitoring: differential full-surface oracle + byte equality + independent footer/CRC parse",
          "Persist vs WriteTo bytes, an independent footer parse with recomputed CRC-32 and the complete query surface of the in-memory and re-opened segment are checked against the model for every generated batch.", "§3 C04"),
+ "C05": ("exploration", "runtime monitoring: model-merge oracle (renumbering, stored, ids, size) over seeded merge plans",
+         "Renumbering maps, Count, reported size, footer and the stored/id surface of every merge output are compared with a zapx-independent merge model over seeded plans that force the byte-copy path, the re-encode path, empty inputs, nothing-survives and merge chains.", "§3 C05"),
+ "C06": ("exploration", "runtime monitoring: model-merge oracle (postings, dictionary, doc values) over seeded merge plans",
+         "Every posting (freq, norm, locations with source-field names), dictionary entry and doc-value set of every merge output is compared with the merge model, over plans covering merged-of-merged inputs, single-hit entries read and produced, terms spread over several inputs and several doc-value chunk sizes.", "§3 C06"),
+ "C08": ("exploration", "runtime monitoring: dictionary-iteration oracle with harness-side automaton stepping over built/opened/merged/re-merged segments",
+         "Term sequences and per-entry counts of AutomatonIterator are compared with the model for six automaton families x key ranges x four provenances; acceptance is decided by stepping the automaton in the harness, independently of the FST walk.", "§3 C08"),
+ "C13": ("exploration", "runtime monitoring: model-merge oracle for thesauri over seeded merge plans with synonym documents",
+         "Thesaurus term lists and (synonym, document) pair sets under exclusion bitmaps of every merge output are compared with the merge model; classes counted: thesaurus in several inputs, in some inputs only, all definitions deleted, merged-of-merged.", "§3 C13"),
 }
 NOT_YET = {}
 
